@@ -575,10 +575,12 @@ def step (s : Sys) : Ev → Option Sys
     | .round r =>
       (match r.pc with
        | .done .ok =>
-         (match slotIndex r.slots key with
-          | some k =>
-            if r.published ∧ idx = r.old.leaves.length + k ∧ ts = r.new.time then some { s with acks := a :: s.acks } else none
-          | none => none)
+         (match slotIndex r.slots key, r.new.leaves[idx]? with
+          | some k, some l =>
+            -- the slot's position gives the index, and the published tree really holds that entry there
+            if r.published ∧ idx = r.old.leaves.length + k ∧ ts = r.new.time ∧ l.key = key ∧ l.ts = ts
+            then some { s with acks := a :: s.acks } else none
+          | _, _ => none)
        | _ => none)
     | _ => none
   | .nack i _eid immediate =>
@@ -624,7 +626,8 @@ def step (s : Sys) : Ev → Option Sys
          if c ≠ c' ∧ ¬ (c = .ok ∧ c' = .failed) then none else
          (match c' with
           | .ok =>
-            let add := (r.slots.zipIdx).map fun (sl, k) => (sl.key, r.old.leaves.length + k, r.new.time)
+            -- cachePut: one row per leaf this round appended to the (now published) tree
+            let add := (r.new.leaves.zipIdx.drop r.old.leaves.length).map fun (l, k) => (l.key, k, l.ts)
             some (s.setInst i { x with phase := .idle, cache := x.cache ++ add })
           | .failed => some (s.setInst i { x with phase := .idle })
           | .fatal => some (s.setInst i { x with phase := .stopped }))
